@@ -132,6 +132,36 @@ is published are listed separately and checked to precede publication). -/
 theorem _root_.KafVerif.C41.fields_guarded : ∀ f ∈ fields, fieldOk f = true := by decide
 
 open KafVerif.Gen.C41 in
+/-- **shared elements are immutable or guarded** (regenerated on every run): every store that goes through an
+element shared via a guarded container of PartitionLog / WriteBuffer / SegmentCache — a field of an `*IndexEntry`
+obtained from `l.indexEntries[..]`, a `[]*IndexEntry` / `*IndexEntry` parameter or the result of `findIndexEntry`,
+an element of a `[]segmentRange` / `[]RecordBatch`, bytes hanging off one — and whose root is not a fresh local is
+made by a method of the owning analysed type while it holds one of its mutexes exclusively (and all stores through
+the same element type agree on that mutex).  On today's source the only such store is
+`l.indexEntries[base] = artifact.RelativeIndex` in `uploadFlush`, under `l.mu`; the readers use the entries after
+releasing `l.mu`, which is race-free exactly because no row of this table is unguarded. -/
+theorem _root_.KafVerif.C41.shared_elements_immutable_or_guarded :
+    ∀ w ∈ sharedElemWrites, elemWriteOk sharedElemWrites w = true := by decide
+
+/-- non-vacuity of the predicate: an unguarded store through `*IndexEntry` (what an in-place "clamp" of
+`entry.Position` in `computeSegmentRange` produces) is rejected, next to the guarded publication in `uploadFlush` -/
+example : elemWritesOk
+    [{ owner := "PartitionLog", elem := "IndexEntry", func := "uploadFlush", line := 424, locks := [0] },
+     { owner := "PartitionLog", elem := "IndexEntry", func := "computeSegmentRange", line := 723, locks := [] }] = false := by decide
+/-- … a store from a free function is rejected, stores under different mutexes are rejected, a guarded one passes -/
+example : elemWritesOk [{ owner := "", elem := "IndexEntry", func := "clampEntry", line := 1, locks := [] }] = false := by decide
+example : elemWritesOk
+    [{ owner := "PartitionLog", elem := "segmentRange", func := "a", line := 1, locks := [0] },
+     { owner := "PartitionLog", elem := "segmentRange", func := "b", line := 2, locks := [1] }] = false := by decide
+example : elemWritesOk
+    [{ owner := "PartitionLog", elem := "IndexEntry", func := "uploadFlush", line := 424, locks := [0] }] = true := by decide
+
+open KafVerif.Gen.C41 in
+/-- the shared-element table is not vacuous on this source: the pass found at least one store (the guarded
+publication of a segment's index entries), i.e. the type inference reaches `map[int64][]*IndexEntry` -/
+theorem _root_.KafVerif.C41.shared_elements_nonvacuous : 1 ≤ sharedElemWrites.length := by decide
+
+open KafVerif.Gen.C41 in
 /-- the pre-publication exemptions are justified at every call site found in the source -/
 theorem _root_.KafVerif.C41.prepublication_ok : prepubViolations = 0 := by decide
 
